@@ -815,5 +815,97 @@ gposDone:
 			break
 		}
 	}
+	// depth of the two closures on this case (how many rounds a naive
+	// fixed-point iteration needs): chains of rules, nested composites
+	if rd, cd := closureDepths(d, glyphs); rd >= 2 || cd >= 2 {
+		if rd >= 2 {
+			labels = append(labels, "rule-chain>=2")
+		}
+		if rd >= 3 {
+			labels = append(labels, "rule-chain>=3")
+		}
+		if cd >= 2 {
+			labels = append(labels, "nested-composites>=2")
+		}
+		if cd >= 3 {
+			labels = append(labels, "nested-composites>=3")
+		}
+	}
 	return drops && interesting, labels
+}
+
+// closureDepths: level 0 = listed glyphs; a rule output has level 1 + the
+// largest level of its inputs; a component has level 1 + that of the composite.
+func closureDepths(d *Desc, glyphs []int) (ruleDepth, compDepth int) {
+	n := len(d.Glyphs)
+	level := map[int]int{}
+	for _, g := range glyphs {
+		level[g] = 0
+	}
+	type rl struct {
+		in  []int
+		out int
+	}
+	var rules []rl
+	for _, lk := range d.Gsub {
+		for _, s := range lk {
+			switch s.Kind {
+			case "s1":
+				for _, g := range s.Cov {
+					rules = append(rules, rl{[]int{g}, (g + s.Delta) % 65536})
+				}
+			case "lig":
+				for _, set := range s.Sets {
+					for _, lg := range set.Ligs {
+						rules = append(rules, rl{append([]int{set.First}, lg.In...), lg.Out})
+					}
+				}
+			}
+		}
+	}
+	for changed := true; changed; {
+		changed = false
+		for _, r := range rules {
+			lv, ok := 0, true
+			for _, g := range r.in {
+				l, has := level[g]
+				if !has {
+					ok = false
+					break
+				}
+				if l > lv {
+					lv = l
+				}
+			}
+			if _, has := level[r.out]; ok && !has {
+				level[r.out] = lv + 1
+				changed = true
+				if lv+1 > ruleDepth {
+					ruleDepth = lv + 1
+				}
+			}
+		}
+	}
+	clevel := map[int]int{}
+	for g := range level {
+		clevel[g] = 0
+	}
+	for changed := true; changed; {
+		changed = false
+		for g, l := range clevel {
+			if g < 0 || g >= n {
+				continue
+			}
+			for _, c := range d.Glyphs[g].Comps {
+				if _, has := clevel[c]; !has {
+					clevel[c] = l + 1
+					changed = true
+					if l+1 > compDepth {
+						compDepth = l + 1
+					}
+				}
+			}
+		}
+	}
+	return ruleDepth, compDepth
 }
